@@ -31,6 +31,8 @@ def subst_elem(t, pos, k, i):
 
 def eval_n(t, N):
     """value of a canonical length term at payload length N (None if not evaluable)"""
+    if not isinstance(t, tuple) or not t:
+        return None
     if t[0] == "const":
         return t[1]
     if t[0] == "len":
@@ -96,7 +98,9 @@ def _unused(t):
 
 def guard_key(o):
     g = {k: v for k, v in o.guard.items() if k not in (("len", "P"),)}
-    return tuple(sorted((repr(k), v.iv) for k, v in g.items()))
+    # decisions of opaque string searches (`find`, `get`) distinguish outcomes just like value sets do
+    oq = tuple(sorted((repr(k), v) for k, v in o.opq.items() if isinstance(k, tuple) and k and k[0] in ("find", "rfind", "str_get")))
+    return tuple(sorted((repr(k), v.iv) for k, v in g.items())) + oq
 
 
 def index(outs):
